@@ -337,11 +337,11 @@ ssize_t __wrap_recv(int fd, void *buf, size_t len, int flags) {
 		}
 		if (c->rst) {
 			syscall_tick(true);
-			if (!c->rst_reported) { c->rst_reported = true; K.ev("recv c%d -> ECONNRESET", c->idx); errno = ECONNRESET; return -1; }
+			if (!c->rst_reported) { c->rst_reported = true; uint64_t s = K.ev("recv c%d -> ECONNRESET", c->idx); if (!c->noticed_seq) c->noticed_seq = s; errno = ECONNRESET; return -1; }
 			K.ev("recv c%d -> 0 (after rst)", c->idx);
 			return 0;
 		}
-		if (c->fin_readable) { syscall_tick(true); K.ev("recv c%d -> 0 (fin)", c->idx); return 0; }
+		if (c->fin_readable) { syscall_tick(true); uint64_t s = K.ev("recv c%d -> 0 (fin)", c->idx); if (!c->noticed_seq) c->noticed_seq = s; return 0; }
 		if (c->nonblock) { syscall_tick(false); K.ev("recv c%d -> EAGAIN", c->idx); errno = EAGAIN; return -1; }
 		// blocking
 		if (e.eintr_next > 0) { e.eintr_next--; K.count("fault.eintr"); syscall_tick(true); K.ev("recv c%d -> EINTR", c->idx); errno = EINTR; return -1; }
@@ -367,7 +367,7 @@ ssize_t __wrap_send(int fd, const void *buf, size_t len, int flags) {
 	if (c->st != Conn::ESTABLISHED) { syscall_tick(true); errno = ENOTCONN; return -1; }
 	NetEndpoint &e = N.eps[c->ep];
 	for (int guard = 0;; guard++) {
-		if (c->rst) { syscall_tick(true); K.count("probe.epipe"); K.ev("send c%d -> EPIPE", c->idx); errno = EPIPE; return -1; }
+		if (c->rst) { syscall_tick(true); K.count("probe.epipe"); uint64_t s = K.ev("send c%d -> EPIPE", c->idx); if (!c->noticed_seq) c->noticed_seq = s; errno = EPIPE; return -1; }
 		size_t room = c->srv_unread() < e.sndbuf_cap ? e.sndbuf_cap - c->srv_unread() : 0;
 		if (room > 0 && len > 0) {
 			size_t n = len < room ? len : room;
